@@ -34,6 +34,16 @@ def rdM (m : List Int) (i : Int) : Option Int :=
 def wrM (m : List Int) (i v : Int) : Option (List Int) :=
   if i < 0 then none else if i.toNat < m.length then some (m.set i.toNat v) else none
 
+/-- `realloc(m, n * sizeof T)` when it succeeds: the first min(|m|, n) elements are kept, new ones are indeterminate (0 here; the
+    translated functions never read them before writing) -/
+def resizeM (m : List Int) (n : Nat) : List Int := m.take n ++ List.replicate (n - m.length) 0
+/-- `memcpy(dst + doff, src + soff, n * sizeof T)` between two different blocks: `none` when either range leaves its block -/
+def memcpyM (dst : List Int) (doff : Int) (src : List Int) (soff n : Int) : Option (List Int) :=
+  if doff < 0 ∨ soff < 0 ∨ n < 0 then none
+  else if soff.toNat + n.toNat ≤ src.length ∧ doff.toNat + n.toNat ≤ dst.length then
+    some (dst.take doff.toNat ++ (src.drop soff.toNat).take n.toNat ++ dst.drop (doff.toNat + n.toNat))
+  else none
+
 /-- the bytes of a buffer as the values a C program reads -/
 def memOf (b : Bytes) : List Int := b.map (fun x => (x.toNat : Int))
 
